@@ -122,8 +122,9 @@ CLAIMED = {
             "increasing, exact clamp ends, cyclic ends, missing path, output_param_size bookkeeping for every mode, None interior "
             "parameters accepted; CDF / cdf_fn outputs in [0,1], geometric mean in [eps, 1+eps], monotone in every input for "
             "non-negative scaling; NonNeg constraint proved sufficient.",
-            "4/C15", "hypotheses input_min < input_max (F-C15-d) and >= 1 keypoint (F-C15-e); float32 softmax underflow is F-C15-b; "
-            "the documented unit-broadcast call form is rejected (F-C15-c). "),
+            "4/C15", "input_min < input_max, >= 1 keypoint and sparsity_factor >= 1 now follow from acceptance (fixed F-C15-d/e, F-C14-a; "
+            "C15_T2_*_int, C15_T3_bad_sparsity_rejected); float32 softmax underflow is F-C15-b; input_dim = 0 -> NaN (mean over an empty "
+            "axis) is the pinned finding F-C15-f. "),
     "C12": ("Lean 4 iff-theorems (reduce_min/max <-> forall) on executable models of every assert_constraints + accept/reject "
             "differential on LP-generated feasible / single-violation / exact-threshold kernels",
             "Theorems (Props/C12.lean): accepts = true <-> every covered constraint has slack >= -eps, for categorical, linear "
@@ -146,7 +147,10 @@ CLAIMED = {
             "by <= 1, monotone wiring and output label; random ensemble (rank, no repeats, coverage, conditional on success); "
             "(incl. totality under the code's preconditions); all-pairs cover complete with sizes <= rank; Crystals end to end "
             "(allocation assert, add list, greedy placement to exact rank, swap invariance: crystals_structure).",
-            "4/C17", "zero-score features are known finding F-C17-a (counter-witness theorem); `no repeated feature inside a final "
+            "4/C17", "zero-score (or float-absorbed-score) features are known finding F-C17-a (counter-witness theorem); a CONSTANT prefitting "
+            "kernel makes the real score normalisation 0/0 (F-C17-b: found by the un-patched `crystals_real` stream; the scores are inputs "
+            "of the Lean model, so that step is covered by the stream only); an RTL layer without inputs is outside the quantifier (model "
+            "and code both refuse: rtl_no_inputs_raises); `no repeated feature inside a final "
             "Crystals lattice` is not claimed by the property and not proved (no counter-example in 2e5 real runs). "),
     "C18": ("Lean 4 theorems on an executable model of compute_keypoints / _weighted_quantile (half-even rounding with explicit "
             "tie directions) + differential correspondence on exact dyadic samples + oracle",
